@@ -138,21 +138,21 @@ def defaultEv (cfg : Cfg K) : Evse.Ev K :=
   { session := "", station := "", arrival := 0, departure := 0, estDeparture := 0, requested := cfg.period,
     delivered := cfg.period, rate := cfg.period, batt := defaultBatt cfg }
 
-def evObj (sh : Show K) (cfg : Cfg K) (s : State K) (j : Nat) : Obj :=
-  let l := layout cfg s
-  let e := s.evs.getD j (defaultEv cfg)
+def evObjOf (sh : Show K) (l : Layout) (j : Nat) (e : Evse.Ev K) : Obj :=
   { cls := "EV",
     attrs := [("_arrival", sI e.arrival), ("_departure", sI e.departure), ("_session_id", sS e.session),
               ("_station_id", sS e.station), ("_requested_energy", sF sh e.requested),
               ("_estimated_departure", sI e.estDeparture), ("_energy_delivered", sF sh e.delivered),
               ("_current_charging_rate", sF sh e.rate), ("_battery", .ref (l.battId j))] }
 
+def evObj (sh : Show K) (cfg : Cfg K) (s : State K) (j : Nat) : Obj :=
+  evObjOf sh (layout cfg s) j (s.evs.getD j (defaultEv cfg))
+
 def calcName : Battery.Calc → String
   | .continuous => "continuous"
   | .stepwise => "stepwise"
 
-def battObj (sh : Show K) (cfg : Cfg K) (s : State K) (j : Nat) : Obj :=
-  let b := (s.evs.getD j (defaultEv cfg)).batt
+def battObjOf (sh : Show K) (b : Battery.Batt K) : Obj :=
   let base : List (String × Val) :=
     [("_max_power", sF sh b.maxPower), ("_current_charging_power", sF sh b.power),
      ("_current_charge", sF sh b.charge), ("_capacity", sF sh b.capacity), ("_init_charge", sF sh b.init)]
@@ -164,6 +164,9 @@ def battObj (sh : Show K) (cfg : Cfg K) (s : State K) (j : Nat) : Obj :=
     { cls := "Battery",
       attrs := base ++ [("_model_noise_level", sF sh b.noiseLevel), ("_model_transition_soc", sF sh b.ts),
                         ("_model_charge_calculation", sS (calcName b.cmode))] }
+
+def battObj (sh : Show K) (cfg : Cfg K) (s : State K) (j : Nat) : Obj :=
+  battObjOf sh (s.evs.getD j (defaultEv cfg)).batt
 
 def eventObj (l : Layout) (s : State K) (e : Event) : Obj :=
   match e.kind with
@@ -194,5 +197,139 @@ def encode (sh : Show K) (cfg : Cfg K) (s : State K) : Store :=
   (List.range (layout cfg s).size).map fun i => (i, objAt sh cfg s i)
 
 def root : Nat := 0
+
+/-! ### decoding (`_from_dict`): references are followed through `g = Store.get`, nothing else of the store is used -/
+
+/-- parsers of the tagged scalars (inverse of `Show` + the fixed renderings of ints and strings) -/
+structure Read (K : Type) where
+  num : String → Option K
+  mat : String → Option (Pilots.Mat K)
+  int : String → Option Int
+  nat : String → Option Nat
+  str : String → Option String
+
+/-- process-level state that is not part of the JSON document: the scheduler-call log of the harness, the
+    position in the (process-global) random stream, the occupancy log of the harness' network subclass -/
+structure Ambient where
+  invoked : List Nat
+  noiseIdx : Nat
+  occLog : List (List (Option String))
+
+def attr (o : Obj) (k : String) : Option Val := o.attrs.lookup k
+def scalarOf : Val → Option String
+  | .scalar t => some t
+  | _ => none
+def refOf : Val → Option Nat
+  | .ref i => some i
+  | _ => none
+def listOf : Val → Option (List Item)
+  | .list l => some l
+  | _ => none
+def itemRef : Item → Option Nat
+  | .ref i => some i
+  | .scalar _ => none
+def itemScalar : Item → Option String
+  | .scalar t => some t
+  | .ref _ => none
+
+def getS (o : Obj) (k : String) : Option String := (attr o k).bind scalarOf
+def getR (o : Obj) (k : String) : Option Nat := (attr o k).bind refOf
+def getL (o : Obj) (k : String) : Option (List Item) := (attr o k).bind listOf
+
+def rdBool (o : Obj) (k : String) : Option Bool :=
+  (getS o k).bind fun t => if t = "b:true" then some true else if t = "b:false" then some false else none
+def rdOptInt (rd : Read K) (o : Obj) (k : String) : Option (Option Int) :=
+  (getS o k).bind fun t =>
+    match rd.int t with
+    | some n => some (some n)
+    | none => if t = "null" then some none else none
+
+def sequence {α : Type} : List (Option α) → Option (List α)
+  | [] => some []
+  | x :: xs =>
+    match x, sequence xs with
+    | some a, some as => some (a :: as)
+    | _, _ => none
+
+def calcOf (t : String) : Option Battery.Calc :=
+  if t = "continuous" then some .continuous else if t = "stepwise" then some .stepwise else none
+
+/-- Battery._from_dict / Linear2StageBattery._from_dict -/
+def decodeBatt (rd : Read K) (g : Nat → Option Obj) (i : Nat) : Option (Battery.Batt K) := do
+  let o ← g i
+  let two ← if o.cls = "Linear2StageBattery" then some true else if o.cls = "Battery" then some false else none
+  let maxPower ← (getS o "_max_power").bind rd.num
+  let power ← (getS o "_current_charging_power").bind rd.num
+  let charge ← (getS o "_current_charge").bind rd.num
+  let capacity ← (getS o "_capacity").bind rd.num
+  let init ← (getS o "_init_charge").bind rd.num
+  let noiseLevel ← (getS o (if two then "_noise_level" else "_model_noise_level")).bind rd.num
+  let ts ← (getS o (if two then "_transition_soc" else "_model_transition_soc")).bind rd.num
+  let cmode ← ((getS o (if two then "charge_calculation" else "_model_charge_calculation")).bind rd.str).bind calcOf
+  pure { capacity, charge, init, maxPower, power, twoStage := two, noiseLevel, ts, cmode }
+
+/-- EV._from_dict: the battery is loaded through its reference -/
+def decodeEv (rd : Read K) (g : Nat → Option Obj) (i : Nat) : Option (Evse.Ev K) := do
+  let o ← g i
+  let arrival ← (getS o "_arrival").bind rd.int
+  let departure ← (getS o "_departure").bind rd.int
+  let session ← (getS o "_session_id").bind rd.str
+  let station ← (getS o "_station_id").bind rd.str
+  let requested ← (getS o "_requested_energy").bind rd.num
+  let estDeparture ← (getS o "_estimated_departure").bind rd.int
+  let delivered ← (getS o "_energy_delivered").bind rd.num
+  let rate ← (getS o "_current_charging_rate").bind rd.num
+  let batt ← (getR o "_battery").bind (decodeBatt rd g)
+  pure { session, station, arrival, departure, estDeparture, requested, delivered, rate, batt }
+
+/-- Event._from_dict / EVEvent._from_dict: the session of an EV event is that of the referenced EV -/
+def decodeEvent (rd : Read K) (g : Nat → Option Obj) (i : Nat) : Option Event := do
+  let o ← g i
+  let ts ← (getS o "timestamp").bind rd.int
+  if o.cls = "RecomputeEvent" then
+    let tag ← (getS o "_model_tag").bind rd.str
+    pure ⟨ts, .recompute, tag⟩
+  else
+    let kind ← if o.cls = "PluginEvent" then some EvKind.plugin else if o.cls = "UnplugEvent" then some EvKind.unplug else none
+    let eo ← (getR o "ev").bind g
+    let sid ← (getS eo "_session_id").bind rd.str
+    pure ⟨ts, kind, sid⟩
+
+def stationIdxFrom : List (Station K) → String → Nat → Option Nat
+  | [], _, _ => none
+  | st :: rest, id, n => if st.id = id then some n else stationIdxFrom rest id (n + 1)
+
+/-- the occupant of a station: EVSE → `_ev` → the EV's static fields -/
+def decodeOcc (rd : Read K) (cfg : Cfg K) (g : Nat → Option Obj) (st : String) : Option Session := do
+  let i ← stationIdxFrom cfg.stations st 0
+  let o ← g (3 + i)
+  let eo ← (getR o "_ev").bind g
+  let id ← (getS eo "_session_id").bind rd.str
+  let station ← (getS eo "_station_id").bind rd.str
+  let arrival ← (getS eo "_arrival").bind rd.int
+  let departure ← (getS eo "_departure").bind rd.int
+  pure { id, station, arrival, departure }
+
+/-- Simulator._from_dict -/
+def decode (rd : Read K) (cfg : Cfg K) (amb : Ambient) (g : Nat → Option Obj) : Option (State K) := do
+  let sim ← g root
+  let net ← (getR sim "network").bind g
+  let q ← (getR sim "event_queue").bind g
+  let iter ← (getS sim "_iteration").bind rd.nat
+  let resolve ← rdBool sim "_resolve"
+  let lastUpd ← rdOptInt rd sim "_last_schedule_update"
+  let peak ← (getS sim "peak").bind rd.num
+  let pilots ← (getS sim "pilot_signals").bind rd.mat
+  let rates ← (getS sim "charging_rates").bind rd.mat
+  let evHist ← (getL sim "ev_history").bind fun l => sequence ((l.filterMap itemScalar).map rd.str)
+  let eventHist ← (getL sim "event_history").bind fun l => sequence ((l.filterMap itemRef).map (decodeEvent rd g))
+  let pending ← (getL q "_queue").bind fun l => sequence ((l.filterMap itemRef).map (decodeEvent rd g))
+  let evseIds ← (getL net "_EVSEs").map fun l => l.filterMap itemRef
+  let evsePilot ← sequence (evseIds.map fun i => (g i).bind fun o => (getS o "_current_pilot").bind rd.num)
+  let bE := 3 + cfg.stations.length
+  let evs ← sequence ((List.range cfg.evs.length).map fun j => decodeEv rd g (bE + 2 * j))
+  pure { core := { iter, pending, occ := decodeOcc rd cfg g, resolve, lastUpd, eventHist, evHist,
+                   invoked := amb.invoked },
+         pilots, rates, peak, evs, evsePilot, noiseIdx := amb.noiseIdx, occLog := amb.occLog }
 
 end Acn.RegistrySim
